@@ -83,7 +83,8 @@ var pureLib = map[string]bool{
 	"context.Context.Done": true, "context.Context.Err": false, "Context.Done": true, "Context.Err": false, "context.WithCancel": false, "context.WithTimeout": false, "context.WithDeadline": false,
 	"context.Background": false, "context.TODO": false, "context.WithValue": false, "context.Context.Value": true, "Context.Value": true,
 	"os.IsNotExist": true, "os.IsExist": true, "os.Getpid": false, "os.Getenv": false,
-	"io.Reader.Read": false, "io.ReadCloser.Close": false, "io.Closer.Close": false, "ReadCloser.Close": false, "Closer.Close": false, "bytes.TrimSpace": false, "bytes.Equal": true, "bytes.Compare": true, "bytes.NewReader": false, "bytes.NewBuffer": false, "bytes.NewBufferString": false,
+	"bufio.NewScanner": false, "bufio.Scanner.Scan": false, "bufio.Scanner.Text": false, "bufio.Scanner.Err": true, "bufio.Scanner.Bytes": false, "bufio.Scanner.Buffer": false,
+	"io.Reader.Read": false, "io.ReadCloser.Close": false, "io.Closer.Close": false, "ReadCloser.Close": false, "Closer.Close": false, "bytes.TrimSpace": false, "bytes.Compare": true, "bytes.NewReader": false, "bytes.NewBuffer": false, "bytes.NewBufferString": false,
 	"io/ioutil.NopCloser": false, "ioutil.NopCloser": false, "io.MultiReader": false, "io.TeeReader": false, "io.LimitReader": false,
 	"math.MaxInt64": true, "math.Ceil": true, "math.Floor": true,
 	"http.ResponseWriter.Header": true, "ResponseWriter.Header": true, "http.Header.Set": false, "http.Header.Add": false, "http.Header.Del": false,
@@ -246,6 +247,18 @@ func init() {
 	}
 	libModels["strings.Index"] = func(fc *FnCtx, s *CallSite) bool {
 		s.results = []Term{T(SInt, "(str.indexof %s %s 0)", s.args[0].S, s.args[1].S)}
+		return true
+	}
+	libModels["bytes.Equal"] = func(fc *FnCtx, s *CallSite) bool {
+		s.results = []Term{Eq(fc.bstr(s.args[0]), fc.bstr(s.args[1]))}
+		return true
+	}
+	libModels["bytes.HasSuffix"] = func(fc *FnCtx, s *CallSite) bool {
+		s.results = []Term{T(SBool, "(str.suffixof %s %s)", fc.bstr(s.args[1]).S, fc.bstr(s.args[0]).S)}
+		return true
+	}
+	libModels["bytes.HasPrefix"] = func(fc *FnCtx, s *CallSite) bool {
+		s.results = []Term{T(SBool, "(str.prefixof %s %s)", fc.bstr(s.args[1]).S, fc.bstr(s.args[0]).S)}
 		return true
 	}
 	libModels["strings.Split"] = modelSplit
